@@ -15,9 +15,9 @@ pub struct C02 {
 impl C02 {
 	pub fn new() -> Self {
 		let mut q = Space::new(false);
-		q.n_random = 600;
+		q.n_random = 800;
 		let mut t = Space::new(true);
-		t.n_random = 20000;
+		t.n_random = 60000;
 		C02 { quick: q, thorough: t, fixtures: common::fixtures() }
 	}
 }
